@@ -215,6 +215,15 @@ def run(run):
                                    'FROM class_declaration AS c SELECT "%s", c.getName()' % ("0123456789" * 130)])
                 stats["long_cell_queries"] += 1
                 q = None
+            elif qi % 6 == 2:
+                # a run of string literals first, then one to three evaluated items: every row keeps its own entity's
+                # values behind the literals (3, 5..7, 9..15 literals leave spare capacity in a slice grown by doubling)
+                k6 = rng.choice([k for k in ("method_declaration", "variable_declaration", "class_declaration") if len(proj.by_kind.get(k, [])) >= 2])
+                nlit = 3 if qi == 2 else rng.choice([5, 6, 7]) if qi == 8 else rng.choice([1, 2, 3, 4, 5, 7, 9, 11, 13, 15])
+                tail = [["e.getName()"], ["e.getName()", "e.getVisibility()"], ["e", "e.getName()"], ["e.getName()", "e", "e.getName()"]][0 if qi in (2, 8) else rng.randrange(4)]
+                text = "FROM %s AS e SELECT %s" % (k6, ", ".join(['"lit%d"' % i for i in range(nlit)] + tail))
+                stats["leading_literal_queries"] += 1
+                q = None
             elif qi % 3 == 1:
                 # two entities whose aliases are textually related (prefix / suffix / substring of one another),
                 # items on both, in both orders: each cell must come from its own alias' entity
